@@ -24,21 +24,34 @@ def run(ctx):
                "the i64 backend is exercised only in the box {<=3x3,|a|<=100} u {<=4x4,|a|<=10} u {<=6x6,|a|<=2}; outside it "
                "intermediate values overflow machine integers (documented observation, DESIGN.md section 6)",
                "the fixed-size Matrix<T,N,M> keeps rank/solve/... private; without a hook only its public row-echelon constructor is driven")
+    # 0. the elimination machine: invariants and read-out theorems on ALL small matrices, for EVERY choice of pivot rows
+    for cfg in (["z22", "z23", "z32", "f22", "f23"] if ctx.quick else
+                ["z22", "z23", "z32", "z33", "z24", "z42", "z33b", "z34", "z43", "f22", "f23", "f32", "f33", "f33b", "f34"]):
+        ctx.mc("MC_Echelon", cfg="MC_Echelon_" + cfg, workers=8, require_actions=(("ENext",) if cfg == "z22" else ()),
+               universe=f"Echelon machine on all matrices of MC_Echelon_{cfg}.cfg, every pivot choice")
     p, n = ctx.gen("Gen_C18", "mats.ndjson", cfg="Gen_C18" if ctx.quick else "Gen_C18_t", xmx="8g")
     ctx.exhaustive_universes.append("all integer matrices of the small shapes of Gen_C18 (%d matrices)" % n)
     ev = ctx.work / "events_tlc.ndjson"
-    ctx.dsv("C18", "replay", p, "--out", ev, timeout=3600)
+    ech = ctx.work / "echelon_tlc.ndjson"
+    ctx.dsv("C18", "replay", p, "--out", ev, "--echelon", ech, timeout=3600)
     count(ctx, ev)
     rej = ctx.validate("Trace_C18", ev, shard=2500)
     ctx.confirm_and_raise("Trace_C18", rej)
+    # hooked: every state of every elimination run satisfies the invariants of Echelon.tla
+    rej = ctx.validate("Trace_C18e", ech, shard=600)
+    ctx.confirm_and_raise("Trace_C18e", rej)
     ev = ctx.work / "events.ndjson"
-    ctx.dsv("C18", "drive", "--out", ev, "--matrices", 150 if ctx.quick else 3000, timeout=3600)
+    ech = ctx.work / "echelon.ndjson"
+    ctx.dsv("C18", "drive", "--out", ev, "--echelon", ech, "--matrices", 150 if ctx.quick else 3000, timeout=3600)
     count(ctx, ev)
     rej = ctx.validate("Trace_C18", ev, shard=120)
     ctx.confirm_and_raise("Trace_C18", rej)
+    rej = ctx.validate("Trace_C18e", ech, shard=40)
+    ctx.confirm_and_raise("Trace_C18e", rej)
 
 
 def replay(ctx, path):
     ctx.build()
-    rej = ctx.validate("Trace_C18", path, shard=10**9)
-    ctx.confirm_and_raise("Trace_C18", rej)
+    mod = "Trace_C18e" if '"echelon_run"' in open(path).read(4000) else "Trace_C18"
+    rej = ctx.validate(mod, path, shard=10**9)
+    ctx.confirm_and_raise(mod, rej)
